@@ -19,6 +19,21 @@ from rowlib import REQUIRED
 
 LEVEL = "proof"
 BASIC = ("str", "int", "float", "bool")
+K_PADDED_TYPE = "short-header-with-padded-type-cell"
+# the characters str.strip() removes (Base/PyStr.v: is_ws)
+PY_WS = [chr(c) for c in list(range(0x9, 0xE)) + list(range(0x1C, 0x21)) + [0x85, 0xA0, 0x1680] + list(range(0x2000, 0x200B))
+         + [0x2028, 0x2029, 0x202F, 0x205F, 0x3000]]
+
+
+def pad_type_cell(rng, cells, column):
+    """the same flow row with whitespace around the text of the row-type cell: the row parser strips the cell, so
+    this is another layout of the same data"""
+    common = [" ", " ", "\n", "\t", "  "]
+    w1 = "".join(rng.choice(common if rng.random() < 0.6 else PY_WS) for _ in range(rng.choice([0, 1, 1, 2])))
+    w2 = "".join(rng.choice(common if rng.random() < 0.6 else PY_WS) for _ in range(rng.choice([0, 1, 1, 2])))
+    if not (w1 or w2):
+        w1 = " "
+    return [(h, (w1 + x + w2) if h == column else x) for (h, x) in cells]
 
 
 class NoEncoding(Exception):
@@ -581,8 +596,10 @@ def _m(name, fields):
     return ("model", name, fields, {}, {})
 
 
-def refutation_witnesses():
-    """(name, model description | "flow", cells, expected) — the exact inputs of the Examples
+def refutation_witnesses(sw_strip=False):
+    """sw_strip: the translator's probe (is the row-type cell stripped before the lookup behind `message_text`?);
+    it selects which branch of Example C09_padded_type_witness describes the tree.
+    (name, model description | "flow", cells, expected) — the exact inputs of the Examples
     C09_positional_flip_witness / _entry_flip_ / _mixed_flip_ / C09_padded_type_witness in coq/props/C09.v.
     expected: ("ok", projection) | ("err",).  If the implementation stops behaving like this the refutations no
     longer describe the code (reported as a disagreement)."""
@@ -603,7 +620,8 @@ def refutation_witnesses():
         ("mixed: spread", RAN, [("m.a", "n"), ("m.n", "5")], ("ok", {"m": {"a": "n", "n": 5}})),
         ("mixed: positional entry is a field name", RAN, [("m", "n|n;5")], ("err",)),
         ("mixed: not a field name", RAN, [("m", "q|n;5")], ("ok", {"m": {"a": "q", "n": 5}})),
-        ("padded type cell, short header", "flow", [("type", " send_message"), ("message_text", "hi"), ("from", "start")], ("err",)),
+        ("padded type cell, short header", "flow", [("type", " send_message"), ("message_text", "hi"), ("from", "start")],
+         ("ok", {"type": "send_message", "mainarg_message_text": "hi"}) if sw_strip else ("err",)),
         ("padded type cell, long header", "flow", [("type", " send_message"), ("mainarg_message_text", "hi"), ("from", "start")],
          ("ok", {"type": "send_message", "mainarg_message_text": "hi"})),
         ("unpadded type cell, short header", "flow", [("type", "send_message"), ("message_text", "hi"), ("from", "start")],
@@ -720,7 +738,7 @@ def run(ctx):
     cx = flow_ctx_tables()
     parser = RowParser(FlowRowModel, CellParser())
     n_flow = (8000 if thorough else 700) * ctx.scale
-    fstats = {"pairs": 0, "no_two_encodings": 0}
+    fstats = {"pairs": 0, "no_two_encodings": 0, "padded_type_cell": 0, "padded_type_cell_with_short_main_header": 0}
     for i in range(n_flow):
         val = gen_flow_row(rng, desc, cx, good=True)
         # nested bare-list content has no spread form
@@ -738,11 +756,30 @@ def run(ctx):
             continue
         fstats["pairs"] += 1
         (c1, tg1), (c2, tg2) = encs
+        # whitespace around the row-type cell (stripped by the row parser): one more way of laying out the same row
+        u1, u2 = c1, c2
+        if rng.random() < 0.3:
+            which = rng.choice([1, 2, 3])
+            if which & 1:
+                c1 = pad_type_cell(rng, c1, cx["sw_column"])
+            if which & 2:
+                c2 = pad_type_cell(rng, c2, cx["sw_column"])
+            tg1 = tg1 | {"padded-type-cell"}
+            fstats["padded_type_cell"] += 1
+            if any(h == cx["sw_header"] for h, _ in (c1 if which & 1 else []) + (c2 if which & 2 else [])):
+                fstats["padded_type_cell_with_short_main_header"] += 1
         add_tags(tg1 | tg2)
         p1, p2 = impl_parse(parser, c1), impl_parse(parser, c2)
         ok = p1[0] == "ok" and p2[0] == "ok" and _deep_eq(p1[1], p2[1])
         if not ok:
-            v.failing_input("flow-layout-dependent-parse",
+            key = "flow-layout-dependent-parse"
+            if (c1, c2) != (u1, u2):
+                # causal classification: the class is the padded type cell only if the same two layouts with the
+                # type cell unpadded DO parse alike
+                q1, q2 = impl_parse(parser, u1), impl_parse(parser, u2)
+                if q1[0] == "ok" and q2[0] == "ok" and _deep_eq(q1[1], q2[1]):
+                    key = K_PADDED_TYPE
+            v.failing_input(key,
                             f"two layouts of one flow row parse differently: cells1={c1} -> {p1}; cells2={c2} -> {p2}",
                             dict(fn="flowpair", value=val, cells1=c1, cells2=c2))
         elif not _deep_eq(p1[1], val):
@@ -833,7 +870,7 @@ def run(ctx):
 
     # ------------------------------------------------ the witnesses of the _refuted theorems, on the implementation
     wstats = {"witnesses": 0}
-    for (name, t, cells, expected) in refutation_witnesses():
+    for (name, t, cells, expected) in refutation_witnesses(bool(cx.get("sw_strip"))):
         rowlib.clear_cache()
         wparser = RowParser(FlowRowModel if t == "flow" else rowlib.py_type(t), CellParser())
         got = impl_parse(wparser, cells)
@@ -853,7 +890,7 @@ def run(ctx):
     for fam, t, key, a, b, what in [
         ("positional", None, "positional-record-value-equals-field-name", [("m.a", "b"), ("m.b", "x")], [("m", "b|x")],
          "record {a: 'b', b: 'x'}: spread layout m.a/m.b vs the positional cell `b|x` (read as the key;value pair b=x)"),
-        ("padded", "flow", "short-header-with-padded-type-cell", [("type", " send_message"), ("mainarg_message_text", "hi"), ("from", "start")],
+        ("padded", "flow", K_PADDED_TYPE, [("type", " send_message"), ("mainarg_message_text", "hi"), ("from", "start")],
          [("type", " send_message"), ("message_text", "hi"), ("from", "start")],
          "flow row whose type cell is ' send_message': long header mainarg_message_text parses, short header message_text raises KeyError "
          "(the remap reads the raw, unstripped type cell)"),
@@ -872,7 +909,10 @@ def run(ctx):
     # ------------------------------------------------ short/long header table, row type by row type
     if m:
         reqs, exp = [], []
-        for rt in list(cx["sw_table"].keys()) + ["nonsense", ""]:
+        rts = list(cx["sw_table"].keys())
+        padded = [rng.choice(PY_WS) + rt for rt in rts] + [rt + rng.choice(PY_WS) for rt in rts] + \
+                 [" " + rt + "\n" for rt in rts[:6]] + [" nonsense", "send_ message", "x" + rts[0], rts[0].upper()]
+        for rt in rts + ["nonsense", ""] + padded:
             row = {"type": rt}
             for h in list(cx["basic"].keys()) + [cx["sw_header"], "row_id", "edges.1.from", "choices"]:
                 r = run_cli_mode(FlowRowModel.header_name_to_field_name_with_context, h, row)
@@ -893,7 +933,8 @@ def run(ctx):
         "(list: spread / one cell with | or ; / bare scalar / empty cell; record: spread / positional / key;value / "
         "mixed / one bare pair; list of records: by index / * columns with per-element list or broadcast / whole list in one "
         "cell; padded basic cells; column permutation that keeps each top-level field's columns in order); flow rows with "
-        "short or long headers per field and edges as * columns or by index; DIRECTED `*` groups (lists of records, flow edges "
+        "short or long headers per field and edges as * columns or by index, 30% of the pairs with str.strip() whitespace "
+        "(any of the 29 characters) around the row-type cell of one or both layouts; DIRECTED `*` groups (lists of records, flow edges "
         "under the short headers from/condition/condition_var/condition_type/condition_name): per column long / short (k < n "
         "values) / one non-default scalar to broadcast / absent, always at least one of each of the first three, in column "
         "orders longest-first, longest-last, reversed, random, each compared with the indexed layout of the same value; "
